@@ -35,20 +35,7 @@ func callsAny(fn *ssa.Function, cs ...an.Callee) bool { return len(an.Calls(fn, 
 func c03(c *an.Check) {
 	expectedPeerForwarding(c)
 	p := c.P
-	pk := p.Func("crypto/tls", "", "PubKeyFromCertChain")
-	c.Gate(an.GateSpec{Construct: "p2ptls.PubKeyFromCertChain success-return", Fn: pk, Sink: successReturn, Reqs: []an.Req{
-		an.FactReq("len(chain)==1", func(s *an.State, x, y ssa.Value, r an.Rel) bool {
-			return r == an.EQ && an.IsIntConst(y, 1) && an.LenOf(s, x, func(a ssa.Value) bool { return an.IsParam(a, 0) })
-		}),
-		an.CallTrue("key extension found", 0, an.R("crypto/tls", "", "extensionIDEqual")),
-		an.CallOK("x509 Verify ok (validity, critical extensions, usage — NOT the signature: the certificate is its own root)", an.X("crypto/x509", "Certificate", "Verify")),
-		an.CallOK("self-signature verifies (CheckSignature with the certificate's own key)", an.X("crypto/x509", "Certificate", "CheckSignature")),
-		an.CallOK("asn1.Unmarshal ok", an.X("encoding/asn1", "", "Unmarshal")),
-		an.CallOK("UnmarshalPublicKey ok", fnUnmarshalPublicKey),
-		an.CallOK("MarshalPKIXPublicKey ok", fnMarshalPKIX),
-		an.CallOK("PubKey.Verify err==nil", fnPubKeyVerify),
-		an.CallTrue("PubKey.Verify valid==true", 0, fnPubKeyVerify),
-	}})
+	pk := certChainGates(c)
 	if pk != nil {
 		// provenance of the verification: receiver = returned key = UnmarshalPublicKey(result); message = const prefix ‖ PKIX(cert key)
 		vcalls := an.Calls(pk, fnPubKeyVerify)
@@ -304,4 +291,27 @@ func init() {
 		Explain:     "Decides on SSA: (R1) PubKeyFromCertChain reaches its success return only past {one certificate, key extension found, x509 Verify, CheckSignature of the certificate over its own TBS bytes with its own key (self-signature; x509.Verify alone skips the signature of a certificate that is its own root), asn1 decode, key parse, PKIX encode, signature err==nil, valid==true}; the verified message is certificatePrefix‖PKIX(chain[0].PublicKey) under the key parsed from the extension, which is the key returned; GenerateSignedExtension signs the same construction (MIRROR); the VerifyPeerCertificate closure of ConfigForPeer accepts / publishes the key only past PubKeyFromCertChain ok and (remote==\"\" or remote.MatchesPublicKey(key)); ConfigForPeer always installs that closure; (WHO) InsecureSkipVerify is set on a tls.Config only in NewIdentity and Identity.config is used only by NewIdentity/ConfigForPeer; quic.Link.remotePeerID is written only in NewLink from DetermineSessionIdentity(sess) = IDFromPublicKey(PubKeyFromCertChain(TLS peer certificates)).",
 		NotCov:      "x509/TLS/QUIC library behaviour and the value-level claim about forged or re-signed extensions are trusted/not decided.",
 		Assumptions: commonAssumptions})
+}
+
+
+// certChainGates: the one function that turns a presented certificate chain into an authenticated identity succeeds only
+// past every check (shared by C03 and by the properties that speak of a link's *authenticated* remote peer: C04, C05).
+func certChainGates(c *an.Check) *ssa.Function {
+	p := c.P
+	ed25519VerifyGates(c)
+	pk := p.Func("crypto/tls", "", "PubKeyFromCertChain")
+	c.Gate(an.GateSpec{Construct: "p2ptls.PubKeyFromCertChain success-return", Fn: pk, Sink: successReturn, Reqs: []an.Req{
+		an.FactReq("len(chain)==1", func(s *an.State, x, y ssa.Value, r an.Rel) bool {
+			return r == an.EQ && an.IsIntConst(y, 1) && an.LenOf(s, x, func(a ssa.Value) bool { return an.IsParam(a, 0) })
+		}),
+		an.CallTrue("key extension found", 0, an.R("crypto/tls", "", "extensionIDEqual")),
+		an.CallOK("x509 Verify ok (validity, critical extensions, usage — NOT the signature: the certificate is its own root)", an.X("crypto/x509", "Certificate", "Verify")),
+		an.CallOK("self-signature verifies (CheckSignature with the certificate's own key)", an.X("crypto/x509", "Certificate", "CheckSignature")),
+		an.CallOK("asn1.Unmarshal ok", an.X("encoding/asn1", "", "Unmarshal")),
+		an.CallOK("UnmarshalPublicKey ok", fnUnmarshalPublicKey),
+		an.CallOK("MarshalPKIXPublicKey ok", fnMarshalPKIX),
+		an.CallOK("PubKey.Verify err==nil", fnPubKeyVerify),
+		an.CallTrue("PubKey.Verify valid==true", 0, fnPubKeyVerify),
+	}})
+	return pk
 }
